@@ -425,9 +425,21 @@ impl<'a> push_decoder::Listener for PushListener<'a> {
                 let spendable_htlc_indices = if htlc_indices.is_empty() {
                     Vec::new()
                 } else {
-                    provider
-                        .get_spendable_htlc_indices(&closing_tx, commitment_number)
-                        .expect("valid spendable HTLC indices for a decoded commitment transaction")
+                    // The commitment may be one we no longer have the details of (an old, revoked
+                    // counterparty commitment - a breach).  Do not abort: watch every output we could
+                    // not attribute, so the channel is only considered swept when all of them are spent.
+                    provider.get_spendable_htlc_indices(&closing_tx, commitment_number).unwrap_or_else(
+                        |e| {
+                            warn!(
+                                "no commitment info for unilateral close {} at commitment {} ({:?}), watching all {} unattributed outputs",
+                                txid,
+                                commitment_number,
+                                e,
+                                htlc_indices.len()
+                            );
+                            htlc_indices.clone()
+                        },
+                    )
                 };
                 debug!(
                     "our_output_index: {:?}, htlc_indices: {:?}, spendable_htlc_indices: {:?}",
